@@ -681,6 +681,186 @@ fn case_strategy() -> impl Strategy<Value = DispCase> + Clone {
         })
 }
 
+// ------------------------------------------------------------------------------------------------
+// part "worker-death": join waits for *every* worker, also when some of them died with a panic
+
+const KILL_MARK: &str = "verif-injected-worker-failure";
+
+#[derive(Debug, Clone, Serialize, Deserialize)]
+pub struct DeathCase {
+    /// per worker (in spawn order): `true` = its thread dies with a panic, `false` = it is busy with an accepted
+    /// task for `busy_ms` when join is called
+    pub dies: Vec<bool>,
+    pub busy_ms: Vec<u8>,
+    pub join_in_runtime: bool,
+}
+
+/// A waker that panics when it is woken. A `JoinHandle` polled with it makes the executor panic outside of any
+/// task (it wakes the handle's waker itself once the sub-task completes): the worker thread dies like it would
+/// on a driver error in its event loop.
+struct PanicOnWake;
+
+impl std::task::Wake for PanicOnWake {
+    fn wake(self: Arc<Self>) {
+        panic!("{KILL_MARK}");
+    }
+}
+
+fn death_strategy() -> impl Strategy<Value = DeathCase> + Clone {
+    (2usize..=4)
+        .prop_flat_map(|n| (vec(any::<bool>(), n), vec(10u8..=120, n), any::<bool>()))
+        .prop_map(|(mut dies, busy_ms, join_in_runtime)| {
+            // at least one worker dies and at least one stays busy
+            if dies.iter().all(|d| !*d) {
+                dies[0] = true;
+            }
+            if dies.iter().all(|d| *d) {
+                let last = dies.len() - 1;
+                dies[last] = false;
+            }
+            DeathCase { dies, busy_ms, join_in_runtime }
+        })
+}
+
+fn run_death(case: &DeathCase) -> Outcome {
+    static SEQ: AtomicU64 = AtomicU64::new(0);
+    let n = case.dies.len();
+    let prefix = format!("c18k{}w", SEQ.fetch_add(1, Ordering::SeqCst) % 1000);
+    let pfx = prefix.clone();
+    let disp = match Dispatcher::builder().worker_threads(NonZeroUsize::new(n).unwrap()).concurrent(false).thread_names(move |i| format!("{pfx}{i}")).build() {
+        Ok(d) => d,
+        Err(e) => return Outcome::inconclusive(format!("Dispatcher::build: {e}")),
+    };
+    let name_of = || std::thread::current().name().unwrap_or("?").to_string();
+    // park every worker in a gate task, learning which gate sits on which worker
+    let (name_tx, name_rx) = mpsc::channel::<(usize, String)>();
+    let mut releases: Vec<Option<mpsc::Sender<()>>> = vec![];
+    for gate in 0..n {
+        let (rtx, rrx) = mpsc::channel::<()>();
+        releases.push(Some(rtx));
+        let name_tx = name_tx.clone();
+        if disp
+            .dispatch(move || async move {
+                let _ = name_tx.send((gate, name_of()));
+                let _ = rrx.recv();
+            })
+            .is_err()
+        {
+            return Outcome::inconclusive("dispatch of a gate task refused");
+        }
+    }
+    let mut gate_of_worker = vec![usize::MAX; n];
+    for _ in 0..n {
+        let Ok((gate, name)) = name_rx.recv_timeout(WATCHDOG) else { return Outcome::inconclusive("gate tasks did not start") };
+        let Some(ix) = name.strip_prefix(&prefix).and_then(|s| s.parse::<usize>().ok()) else { return Outcome::inconclusive("gate task ran on an unnamed thread") };
+        gate_of_worker[ix] = gate;
+    }
+    if gate_of_worker.iter().any(|g| *g == usize::MAX) {
+        return Outcome::inconclusive("two gate tasks on one worker");
+    }
+    // busy workers first, then the dying ones: each worker is freed alone, so it is the one that takes the task
+    let live = Arc::new(AtomicI32::new(0));
+    let finished = Arc::new(AtomicU32::new(0));
+    let go = Arc::new(AtomicBool::new(false));
+    struct Live(Arc<AtomicI32>);
+    impl Drop for Live {
+        fn drop(&mut self) {
+            self.0.fetch_sub(1, Ordering::SeqCst);
+        }
+    }
+    let mut order: Vec<usize> = (0..n).filter(|w| !case.dies[*w]).collect();
+    order.extend((0..n).filter(|w| case.dies[*w]));
+    let mut receivers = vec![];
+    for w in order {
+        let (stx, srx) = mpsc::channel::<String>();
+        releases[gate_of_worker[w]].take().unwrap().send(()).ok();
+        let r = if case.dies[w] {
+            disp.dispatch(move || async move {
+                let _ = stx.send(name_of());
+                let mut sub = compio_runtime::spawn(async {});
+                let waker = std::task::Waker::from(Arc::new(PanicOnWake));
+                let mut cx = Context::from_waker(&waker);
+                let _ = Pin::new(&mut sub).poll(&mut cx);
+                std::mem::forget(sub); // keep the handle and the waker in it alive
+                for _ in 0..1000 {
+                    YieldNow(false).await; // the executor completes `sub`, wakes the waker and dies
+                }
+                0u32
+            })
+            .map_err(|_| ())
+        } else {
+            let ms = case.busy_ms[w] as u64;
+            let (live, finished, go) = (live.clone(), finished.clone(), go.clone());
+            disp.dispatch(move || {
+                live.fetch_add(1, Ordering::SeqCst);
+                let guard = Live(live);
+                async move {
+                    let _guard = guard;
+                    let _ = stx.send(name_of());
+                    // stay busy until join is being called (so no later task can land here), then for `ms` more
+                    let t0 = Instant::now();
+                    while !go.load(Ordering::SeqCst) && t0.elapsed() < WATCHDOG {
+                        std::thread::sleep(Duration::from_millis(1));
+                        YieldNow(false).await;
+                    }
+                    let end = Instant::now() + Duration::from_millis(ms);
+                    while Instant::now() < end {
+                        std::thread::sleep(Duration::from_millis(1));
+                        YieldNow(false).await;
+                    }
+                    finished.fetch_add(1, Ordering::SeqCst);
+                    1u32
+                }
+            })
+            .map_err(|_| ())
+        };
+        let Ok(rx) = r else { return Outcome::inconclusive("dispatch refused") };
+        receivers.push((w, rx));
+        match srx.recv_timeout(WATCHDOG) {
+            Ok(name) if name == format!("{prefix}{w}") => {}
+            Ok(_) => return Outcome::inconclusive("a task was taken by another worker than the one that was freed"),
+            Err(_) => return Outcome::inconclusive("a steered task did not start"),
+        }
+    }
+    let busy = case.dies.iter().filter(|d| !**d).count() as u32;
+    let (jtx, jrx) = mpsc::channel::<(bool, i32, u32)>();
+    let in_rt = case.join_in_runtime;
+    let (live2, fin2) = (live.clone(), finished.clone());
+    go.store(true, Ordering::SeqCst);
+    let jh = std::thread::Builder::new()
+        .name("c18j".into())
+        .spawn(move || {
+            let r = catch_unwind(AssertUnwindSafe(|| if in_rt { compio_runtime::Runtime::new().expect("harness runtime").block_on(disp.join()) } else { futures_executor::block_on(disp.join()) }));
+            // exact: every worker thread has been joined by now, or join came back too early
+            let _ = jtx.send((r.is_err(), live2.load(Ordering::SeqCst), fin2.load(Ordering::SeqCst)));
+        })
+        .expect("spawn join thread");
+    let Ok((panicked, live_at_join, finished_at_join)) = jrx.recv_timeout(WATCHDOG) else { return Outcome::inconclusive("join did not return within the watchdog") };
+    let _ = jh.join();
+    // let the busy tasks end before the next case in any event
+    let end = Instant::now() + Duration::from_secs(5);
+    while live.load(Ordering::SeqCst) != 0 && Instant::now() < end {
+        std::thread::sleep(Duration::from_millis(1));
+    }
+    drop(receivers);
+    if live_at_join != 0 || finished_at_join != busy {
+        return Outcome::violation(
+            "C18/join-returned-before-workers-exited/after-worker-panic",
+            format!("{live_at_join} accepted task(s) were still running on healthy workers when join() came back ({finished_at_join} of {busy} finished): dies = {:?}", case.dies),
+        );
+    }
+    if !panicked {
+        return Outcome::violation("C18/worker-panic-not-propagated/one-of-many", format!("worker(s) died with a panic (dies = {:?}) but join returned normally", case.dies));
+    }
+    let first_dead = case.dies.iter().position(|d| *d).unwrap();
+    let later_busy = case.dies.iter().skip(first_dead + 1).any(|d| !*d);
+    let mut labels = vec![format!("workers:{n}"), if in_rt { "join:in-runtime".to_string() } else { "join:block_on".to_string() }];
+    if later_busy {
+        labels.push("dead-worker-before-busy-worker".into());
+    }
+    Outcome::pass_owned(later_busy, labels)
+}
+
 fn main() {
     let prev = std::panic::take_hook();
     std::panic::set_hook(Box::new(move |info| {
@@ -691,7 +871,7 @@ fn main() {
         } else {
             String::new()
         };
-        if (msg.contains(PANIC_MARK) || msg.contains(BROKEN_MSG)) && std::env::var("VERIF_VERBOSE").is_err() {
+        if (msg.contains(PANIC_MARK) || msg.contains(BROKEN_MSG) || msg.contains(KILL_MARK)) && std::env::var("VERIF_VERBOSE").is_err() {
             return;
         }
         prev(info)
@@ -761,6 +941,33 @@ fn main() {
                 HUNG.fetch_add(1, Ordering::SeqCst);
             }
             _ => HUNG.store(0, Ordering::SeqCst),
+        }
+        o
+    });
+    let mut p = Part::new(
+        "C18",
+        "worker-death",
+        "case = sequential Dispatcher with 2-4 workers; every worker is parked in a gate task and then freed alone, so that the next task lands on it: a generated \
+         non-empty subset of the workers dies (a JoinHandle polled with a waker that panics makes the executor panic outside any task), every other worker is busy \
+         with an accepted task for 10-120 ms; then join() is called (futures_executor or inside a compio runtime). Oracle: join resumes a panic, and at the moment \
+         it returns every busy task has finished and been dropped. Non-trivial = a worker that dies was spawned before a worker that is busy.",
+    );
+    p.crash_guard = false;
+    p.quick_cases = 60;
+    p.thorough_cases = 1500;
+    p.replay_repeats = 5;
+    p.max_shrink_iters = 20;
+    p.regressions = vec![
+        ("first-worker-dies-second-is-busy", DeathCase { dies: vec![true, false], busy_ms: vec![50, 80], join_in_runtime: false }),
+        ("second-worker-dies-first-is-busy", DeathCase { dies: vec![false, true], busy_ms: vec![80, 50], join_in_runtime: true }),
+    ];
+    if s.args.shard.0 != 0 {
+        p.regressions.clear();
+    }
+    s.run_part(p, death_strategy(), |c| {
+        let o = run_death(c);
+        if let Outcome::Inconclusive { why } = &o {
+            eprintln!("C18/worker-death: inconclusive case: {why}");
         }
         o
     });
